@@ -1,4 +1,5 @@
 import RustCcModel.Proofs.CtlSimp
+import RustCcModel.Proofs.LifeHist
 /-! # C05 — finalizers run only on garbage, once, and before any drop of the same set
 
 Step-level facts: the finalized flag is set *before* the finalizer is called (so it is never called
@@ -49,5 +50,34 @@ theorem no_feature_no_finalizer_rc (c : Cfg) (w : World) (x : Id) (hc : c.fin = 
     rcases hm with h | h <;> simp [h]
   rw [if_neg h1, if_pos hrc]
   simp [hc]
+
+/-! ## Histories in which no panic has been unwound (`Proofs/LifeHist.lean`) -/
+
+/-- **A finalizer is only ever called on an intact value in an allocated box**: whenever a step emits `finalize x`, object
+`x` holds a live value in a live box. -/
+theorem finalize_only_alive (c : Cfg) (nH nW nK : Nat) (w : World) (h : ReachableR c nH nW nK w) (hm : w.mode = .running) (x : Id)
+    (t : Bool) (hx : Event.finalize x t ∈ newEvents w (step c w)) :
+    (w.heap x).boxLive = true ∧ (w.heap x).valLive = true := by
+  have hv : (false, x) ∈ vEv (newEvents w (step c w)) := mem_vEv_fin.2 ⟨t, hx⟩
+  obtain ⟨hal, _⟩ := vev_alive h hm false x hv
+  exact ⟨by have := congrArg Prod.fst hal; simpa [Obj.lv] using this, by have := congrArg Prod.snd hal; simpa [Obj.lv] using this⟩
+
+/-- **`finalize` always comes before that object's `Drop`**: in the log of the whole history no `finalize x` follows `drop x`. -/
+theorem no_finalize_after_drop (c : Cfg) (nH nW nK : Nat) (w : World) (log : List Event) (h : HistR c nH nW nK w log) (x : Id)
+    (l1 l2 : List (Bool × Id)) (hs : vEv log = l1 ++ (true, x) :: l2) : (false, x) ∉ l2 :=
+  (histR_deadOk c nH nW nK w log h x).order l1 l2 hs false
+
+/-- The finalized flag is already set when the finalizer is entered (so a collection started from inside it, or a second
+`Cc::drop`, cannot finalize the object again): the frame that is about to call `Finalize::finalize` is always pushed
+together with the flag. -/
+theorem dropCc_sets_flag_before_call (c : Cfg) (w : World) (x : Id)
+    (hm : (w.heap x).mark = .non ∨ (w.heap x).mark = .pc) (hrc : (w.heap x).rc = 1) (hf : c.fin = true)
+    (hnf : (w.heap x).finalized = false) :
+    ((stepFrame c w (.dropCc x)).heap x).finalized = true ∧ (stepFrame c w (.dropCc x)).stack.head? = some (.callFin x) := by
+  simp only [stepFrame]
+  have h1 : ¬ ((w.heap x).mark = .inList ∨ (w.heap x).mark = .inQueue) := by
+    rcases hm with h | h <;> simp [h]
+  rw [if_neg h1, if_pos hrc]
+  simp [hf, hnf, push, upd]
 
 end RustCc.C05
